@@ -26,7 +26,8 @@ def sh(cmd, cwd=None, timeout=3600):
 
 def main():
     pid, src = sys.argv[1], sys.argv[2].rstrip("/")
-    k = sys.argv[3] if len(sys.argv) > 3 else os.path.basename(src)
+    k = sys.argv[3] if len(sys.argv) > 3 and not sys.argv[3].startswith("-") else os.path.basename(src)
+    extra_flags = " ".join(a for a in sys.argv[3:] if a.startswith("-"))
     name = f"{pid}_{k}"
     head = sh("git -C /repo rev-parse HEAD").stdout.strip()
     if not os.path.isdir(WT):
@@ -52,7 +53,7 @@ def main():
         if mm:
             pkg = mm.group(1)
             break
-    demo_cmd = f"cargo test -p {pkg} --offline --test {test_name}"
+    demo_cmd = f"cargo test -p {pkg} --offline --test {test_name} {extra_flags}".strip()
     shutil.copy(demo_src, os.path.join(WT, dest))
     r0 = sh(demo_cmd, cwd=WT)
     log["demo_without_patch_rc"] = r0.returncode
